@@ -1095,6 +1095,7 @@ func (x *sx) run(line string) string {
 		switch {
 		case err == nil:
 			res = fOut(o)
+			x.wrongPreference("ConsensusIndex.GetPreferredBlock", o.blk.N)
 		case strings.Contains(err.Error(), "has not been verified"):
 			res = "err:unverified"
 		default:
@@ -1148,6 +1149,21 @@ func canonFinish(ev []vEvent) []vEvent {
 	return ev
 }
 
+// wrongPreference: the VM used block `got` as its preference although the engine's last
+// SetPreference target (still last accepted or processing, i.e. a legal preference) is another block.
+func (x *sx) wrongPreference(what string, got uint64) {
+	if !x.prefOK(x.prefNum) || got == x.prefNum {
+		return
+	}
+	if got == x.eng.lastAcc.N {
+		if _, proc := x.procNums()[x.prefNum]; proc {
+			x.violation("preference-reset-by-accept", "%s uses last accepted block %d, the engine's preference is the processing block %d (no SetPreference since)", what, got, x.prefNum)
+			return
+		}
+	}
+	x.violation("preference-mismatch", "%s uses block %d, the engine's last SetPreference target is %d", what, got, x.prefNum)
+}
+
 func (x *sx) retained(h uint64) bool {
 	return x.window == 0 || h+x.window > x.eng.lastAcc.H
 }
@@ -1182,6 +1198,9 @@ func (x *sx) oracleEvents(ev []vEvent) {
 			}
 			if e.po != nil && !x.produced[fOut(e.po)] {
 				x.violation("build-on-unverified-parent", "%s", e.String())
+			}
+			if e.po != nil {
+				x.wrongPreference("inner BuildBlock", e.po.blk.N)
 			}
 			if e.res != nil {
 				x.produced[fOut(e.res)] = true
@@ -1575,10 +1594,21 @@ func (g *vGen) randomOp(x *sx) string {
 				if len(c) > 1 {
 					x.feat(g.r, "fork-choice")
 				}
+				if _, prefProc := x.procNums()[x.prefNum]; prefProc && x.vm.ready && rn.Intn(2) == 0 {
+					// the preference is a processing block: after accepting (a prefix of its chain) keep building on it
+					g.tail = []string{"cipref", fmt.Sprintf("build %d", g.fresh())}
+				}
 				return "accept " + strconv.Itoa(c[rn.Intn(len(c))])
 			}
 		case k < 76:
 			par := parents[rn.Intn(len(parents))]
+			if rn.Intn(2) == 0 { // the engine usually prefers the deepest processing block
+				for _, q := range parents {
+					if q.H > par.H {
+						par = q
+					}
+				}
+			}
 			return fmt.Sprintf("pref %d", par.N)
 		case k < 86:
 			if x.pending() > 0 {
@@ -1621,6 +1651,13 @@ var corpusSyncReject = []string{
 	"finish 100 99 0 0 100", "health", "get 101", "cila", "last",
 }
 
+// a preferred chain of three blocks of which only a prefix is accepted: BuildBlock / GetPreferredBlock keep
+// using the engine's preference
+var corpusPref = []string{
+	"init 3 3 0 100 99 0 1", "build 101", "verify 1", "pref 101", "build 102", "verify 2", "pref 102", "build 103", "verify 3", "pref 103",
+	"accept 1", "cipref", "build 104", "fin", "accept 2", "cipref", "build 105", "verify 5", "fin", "cipref", "last",
+}
+
 // P-Chain context supplied by the engine: none / mismatching / matching, parsed and built blocks
 var corpusCtx = []string{
 	"init 2 2 0 100 99 0 1", "parsec 101 100 1 0 1", "verifyc 1 2", "verify 1", "get 101", "parsec 101 100 1 0 1", "verifyc 1 1", "accept 1", "fin",
@@ -1659,7 +1696,7 @@ func runSnow(t *testing.T, id string, c21 bool) {
 		g.corpus = append(append([]string{}, corpusC21...), corpusSyncReject...)
 		g.maxSeq = r.N(300, 6000)
 	} else {
-		g.corpus = append(append(append([]string{}, corpusC20...), corpusSyncReject...), corpusCtx...)
+		g.corpus = append(append(append([]string{}, corpusC20...), corpusSyncReject...), append(append([]string{}, corpusCtx...), corpusPref...)...)
 		g.maxSeq = r.N(400, 8000)
 	}
 	var x *sx
